@@ -322,10 +322,8 @@ result<bool> url_pattern<regex_provider>::test(
       return false;
     }
 
+    // process a URLPatternInit already removed the single leading '?'.
     std::string_view search_view = *apply_result->search;
-    if (search_view.starts_with("?")) {
-      search_view.remove_prefix(1);
-    }
 
     return test_components(*apply_result->protocol, *apply_result->username,
                            *apply_result->password, *apply_result->hostname,
@@ -437,11 +435,8 @@ result<std::optional<url_pattern_result>> url_pattern<regex_provider>::match(
 
     // Set search to applyResult["search"].
     ADA_ASSERT_TRUE(apply_result->search.has_value());
-    if (apply_result->search->starts_with("?")) {
-      search = apply_result->search->substr(1);
-    } else {
-      search = std::move(apply_result->search.value());
-    }
+    // process a URLPatternInit already removed the single leading '?'.
+    search = std::move(apply_result->search.value());
 
     // Set hash to applyResult["hash"].
     ADA_ASSERT_TRUE(apply_result->hash.has_value());
